@@ -104,11 +104,28 @@ package gateway
 
 // Wire conversion (property C30): the response reports an expiry exactly when the record has
 // one (ExpirationTime != 0, the engine-wide meaning of "has an expiry").
+
+// Wire conversion of the value (properties C05, C06): for each integer / string content type the response
+// carries the value the record's typed getter returned, in the wire field of that type (8- and 16-bit
+// values widened without change), and no value field of another integer / string type is set; a getter
+// error leaves the field unset.
+//@ trusted func (github.com/hydraide/hydraide/app/core/hydra/swamp/treasure.Treasure).GetContentString(t) (v, err)
 //@ func treasureToKeyValuePair(treasureInterface, t)
-//@   property C30
+//@   property C30 C05
 //@   requires[args] treasureInterface != nil && t != nil && t.ExpiredAt == nil
+//@   requires[fresh_response] t.Int8Val == nil && t.Int16Val == nil && t.Int32Val == nil && t.Int64Val == nil && t.Uint8Val == nil && t.Uint16Val == nil && t.Uint32Val == nil && t.Uint64Val == nil && t.StringVal == nil
 //@   modifies all(t), ghost("ts_nanos")
 //@   ensures[expiry_reported_iff_set] (U_treasure_exp(treasureInterface) != 0) <==> (t.ExpiredAt != nil)
+//@   ensures[C05:int8_value_in_its_wire_field] old(icall("GetContentType", treasureInterface)) == treasure.ContentTypeInt8 ==> calls("Treasure.GetContentInt8") == old(calls("Treasure.GetContentInt8")) + 1 && (isnil(lastret("Treasure.GetContentInt8", 1)) ==> t.Int8Val != nil && deref(t.Int8Val) == lastret("Treasure.GetContentInt8", 0)) && (!isnil(lastret("Treasure.GetContentInt8", 1)) ==> t.Int8Val == nil) && t.Int16Val == nil && t.Int32Val == nil && t.Int64Val == nil && t.Uint8Val == nil && t.Uint16Val == nil && t.Uint32Val == nil && t.Uint64Val == nil && t.StringVal == nil
+//@   ensures[C05:int16_value_in_its_wire_field] old(icall("GetContentType", treasureInterface)) == treasure.ContentTypeInt16 ==> calls("Treasure.GetContentInt16") == old(calls("Treasure.GetContentInt16")) + 1 && (isnil(lastret("Treasure.GetContentInt16", 1)) ==> t.Int16Val != nil && deref(t.Int16Val) == lastret("Treasure.GetContentInt16", 0)) && (!isnil(lastret("Treasure.GetContentInt16", 1)) ==> t.Int16Val == nil) && t.Int8Val == nil && t.Int32Val == nil && t.Int64Val == nil && t.Uint8Val == nil && t.Uint16Val == nil && t.Uint32Val == nil && t.Uint64Val == nil && t.StringVal == nil
+//@   ensures[C05:int32_value_in_its_wire_field] old(icall("GetContentType", treasureInterface)) == treasure.ContentTypeInt32 ==> calls("Treasure.GetContentInt32") == old(calls("Treasure.GetContentInt32")) + 1 && (isnil(lastret("Treasure.GetContentInt32", 1)) ==> t.Int32Val != nil && deref(t.Int32Val) == lastret("Treasure.GetContentInt32", 0)) && (!isnil(lastret("Treasure.GetContentInt32", 1)) ==> t.Int32Val == nil) && t.Int8Val == nil && t.Int16Val == nil && t.Int64Val == nil && t.Uint8Val == nil && t.Uint16Val == nil && t.Uint32Val == nil && t.Uint64Val == nil && t.StringVal == nil
+//@   ensures[C05:int64_value_in_its_wire_field] old(icall("GetContentType", treasureInterface)) == treasure.ContentTypeInt64 ==> calls("Treasure.GetContentInt64") == old(calls("Treasure.GetContentInt64")) + 1 && (isnil(lastret("Treasure.GetContentInt64", 1)) ==> t.Int64Val != nil && deref(t.Int64Val) == lastret("Treasure.GetContentInt64", 0)) && (!isnil(lastret("Treasure.GetContentInt64", 1)) ==> t.Int64Val == nil) && t.Int8Val == nil && t.Int16Val == nil && t.Int32Val == nil && t.Uint8Val == nil && t.Uint16Val == nil && t.Uint32Val == nil && t.Uint64Val == nil && t.StringVal == nil
+//@   ensures[C05:uint8_value_in_its_wire_field] old(icall("GetContentType", treasureInterface)) == treasure.ContentTypeUint8 ==> calls("Treasure.GetContentUint8") == old(calls("Treasure.GetContentUint8")) + 1 && (isnil(lastret("Treasure.GetContentUint8", 1)) ==> t.Uint8Val != nil && deref(t.Uint8Val) == lastret("Treasure.GetContentUint8", 0)) && (!isnil(lastret("Treasure.GetContentUint8", 1)) ==> t.Uint8Val == nil) && t.Int8Val == nil && t.Int16Val == nil && t.Int32Val == nil && t.Int64Val == nil && t.Uint16Val == nil && t.Uint32Val == nil && t.Uint64Val == nil && t.StringVal == nil
+//@   ensures[C05:uint16_value_in_its_wire_field] old(icall("GetContentType", treasureInterface)) == treasure.ContentTypeUint16 ==> calls("Treasure.GetContentUint16") == old(calls("Treasure.GetContentUint16")) + 1 && (isnil(lastret("Treasure.GetContentUint16", 1)) ==> t.Uint16Val != nil && deref(t.Uint16Val) == lastret("Treasure.GetContentUint16", 0)) && (!isnil(lastret("Treasure.GetContentUint16", 1)) ==> t.Uint16Val == nil) && t.Int8Val == nil && t.Int16Val == nil && t.Int32Val == nil && t.Int64Val == nil && t.Uint8Val == nil && t.Uint32Val == nil && t.Uint64Val == nil && t.StringVal == nil
+//@   ensures[C05:uint32_value_in_its_wire_field] old(icall("GetContentType", treasureInterface)) == treasure.ContentTypeUint32 ==> calls("Treasure.GetContentUint32") == old(calls("Treasure.GetContentUint32")) + 1 && (isnil(lastret("Treasure.GetContentUint32", 1)) ==> t.Uint32Val != nil && deref(t.Uint32Val) == lastret("Treasure.GetContentUint32", 0)) && (!isnil(lastret("Treasure.GetContentUint32", 1)) ==> t.Uint32Val == nil) && t.Int8Val == nil && t.Int16Val == nil && t.Int32Val == nil && t.Int64Val == nil && t.Uint8Val == nil && t.Uint16Val == nil && t.Uint64Val == nil && t.StringVal == nil
+//@   ensures[C05:uint64_value_in_its_wire_field] old(icall("GetContentType", treasureInterface)) == treasure.ContentTypeUint64 ==> calls("Treasure.GetContentUint64") == old(calls("Treasure.GetContentUint64")) + 1 && (isnil(lastret("Treasure.GetContentUint64", 1)) ==> t.Uint64Val != nil && deref(t.Uint64Val) == lastret("Treasure.GetContentUint64", 0)) && (!isnil(lastret("Treasure.GetContentUint64", 1)) ==> t.Uint64Val == nil) && t.Int8Val == nil && t.Int16Val == nil && t.Int32Val == nil && t.Int64Val == nil && t.Uint8Val == nil && t.Uint16Val == nil && t.Uint32Val == nil && t.StringVal == nil
+//@   ensures[C05:string_value_in_its_wire_field] old(icall("GetContentType", treasureInterface)) == treasure.ContentTypeString ==> calls("Treasure.GetContentString") == old(calls("Treasure.GetContentString")) + 1 && (isnil(lastret("Treasure.GetContentString", 1)) ==> t.StringVal != nil && deref(t.StringVal) == lastret("Treasure.GetContentString", 0)) && (!isnil(lastret("Treasure.GetContentString", 1)) ==> t.StringVal == nil) && t.Int8Val == nil && t.Int16Val == nil && t.Int32Val == nil && t.Int64Val == nil && t.Uint8Val == nil && t.Uint16Val == nil && t.Uint32Val == nil && t.Uint64Val == nil
+//@   ensures[C05:key_and_existence] t.IsExist && t.Key == icall("GetKey", treasureInterface)
 
 // Cap accounting (property C12). Ghost protocol for the swamp's cap mutex:
 //   capmu_held          1 while swamp.capMu is held by this request
